@@ -186,6 +186,8 @@ def main(prop: str, tier: str, seed: int, replay: str | None = None) -> int:
         rc = 2
         lines.append(f"INCONCLUSIVE property={prop} reason=" + "; ".join(inconclusive)[:1500])
 
+    if rc == 1 and inconclusive:
+        lines.append("  note (harness): " + "; ".join(inconclusive)[:600])
     wall = time.time() - t0
     if not replay:
         write_evidence(mod, prop, tier, seed, agg, known_hits, new, others, inconclusive, judged, wall, nshards, ncases)
